@@ -593,6 +593,88 @@ where
 		}
 	}
 	n_checks += 3;
+	{
+		// other whole-iterator methods with default implementations an iterator may override
+		if make().reduce(|a, _| a).map(f).as_ref() != expected.first() {
+			return fail("reduce(keep the first)", format!("{:?}", make().reduce(|a, _| a).map(f)));
+		}
+		if make().reduce(|_, b| b).map(f).as_ref() != expected.last() {
+			return fail("reduce(keep the last)", format!("{:?}", make().reduce(|_, b| b).map(f)));
+		}
+		if make().min_by(|_, _| std::cmp::Ordering::Equal).map(f).as_ref() != expected.first() {
+			return fail("min_by(all equal), which keeps the first item,", format!("{:?}", make().min_by(|_, _| std::cmp::Ordering::Equal).map(f)));
+		}
+		if make().max_by(|_, _| std::cmp::Ordering::Equal).map(f).as_ref() != expected.last() {
+			return fail("max_by(all equal), which keeps the last item,", format!("{:?}", make().max_by(|_, _| std::cmp::Ordering::Equal).map(f)));
+		}
+		let (l, r): (Vec<X>, Vec<X>) = {
+			let mut k = 0usize;
+			make().partition(|_| {
+				k += 1;
+				k % 2 == 1
+			})
+		};
+		let l: Vec<T> = l.into_iter().map(f).collect();
+		let r: Vec<T> = r.into_iter().map(f).collect();
+		let wl: Vec<T> = expected.iter().step_by(2).cloned().collect();
+		let wr: Vec<T> = expected.iter().skip(1).step_by(2).cloned().collect();
+		if l != wl || r != wr {
+			return fail("partition(alternating)", format!("{:?} / {:?}", l, r));
+		}
+		if make().enumerate().last().map(|(i, x)| (i, f(x))) != expected.last().cloned().map(|x| (len - 1, x)) {
+			return fail("enumerate().last()", "something else".to_string());
+		}
+		// searching methods stop at the k-th item; the rest of the iteration continues after it
+		for k in 0..=len.min(3) {
+			let mut seen = 0usize;
+			let mut it = make();
+			let got = it
+				.find(|_| {
+					seen += 1;
+					seen == k + 1
+				})
+				.map(f);
+			if got.as_ref() != expected.get(k) {
+				return fail(&format!("find(the item number {})", k), format!("{:?}", got));
+			}
+			let rest: Vec<T> = it.map(f).collect();
+			let want: Vec<T> = expected.iter().skip(k + 1).cloned().collect();
+			if rest != want && k < len {
+				return fail(&format!("the items after find(the item number {})", k), format!("{:?}", rest));
+			}
+			let mut seen = 0usize;
+			let mut it = make();
+			let got = it.position(|_| {
+				seen += 1;
+				seen == k + 1
+			});
+			if got != if k < len { Some(k) } else { None } {
+				return fail(&format!("position(the item number {})", k), format!("{:?}", got));
+			}
+			let rest: Vec<T> = it.map(f).collect();
+			if rest != want && k < len {
+				return fail(&format!("the items after position(the item number {})", k), format!("{:?}", rest));
+			}
+			let mut seen = 0usize;
+			let mut it = make();
+			let got = it.any(|_| {
+				seen += 1;
+				seen == k + 1
+			});
+			if got != (k < len) {
+				return fail(&format!("any(the item number {})", k), format!("{:?}", got));
+			}
+			let rest: Vec<T> = it.map(f).collect();
+			if rest != want && k < len {
+				return fail(&format!("the items after any(the item number {})", k), format!("{:?}", rest));
+			}
+			n_checks += 3;
+		}
+		if make().take(2).count() != len.min(2) || make().chain(make()).count() != 2 * len {
+			return fail("take(2).count() / chain", "a different number of items".to_string());
+		}
+		n_checks += 8;
+	}
 	for m in 0..=len.min(3) {
 		for n in 0..=(len + 1).min(4) {
 			let mut it = make();
@@ -641,6 +723,60 @@ where
 		}
 	}
 	Ok(n_checks)
+}
+
+/// `min` / `max` (and their partial-consumption variants) of an iterator whose
+/// items are ordered: compared with the same methods of a `Vec` of the items
+/// obtained through `next()`.
+pub fn check_iter_ord<X, T, I>(what: &str, make: &dyn Fn() -> I, f: &dyn Fn(X) -> T) -> Result<u64, String>
+where
+	X: Ord,
+	T: PartialEq + std::fmt::Debug,
+	I: Iterator<Item = X>,
+{
+	let by_next = || {
+		let mut v = Vec::new();
+		let mut it = make();
+		while let Some(x) = it.next() {
+			v.push(x);
+		}
+		v
+	};
+	let mut n = 0u64;
+	for skip in 0..=2usize {
+		let adv = |skip: usize| {
+			let mut it = make();
+			for _ in 0..skip {
+				it.next();
+			}
+			it
+		};
+		let got = Iterator::max(adv(skip)).map(f);
+		let want = Iterator::max(by_next().into_iter().skip(skip)).map(f);
+		if got != want {
+			return Err(format!("{}: max() after {} next() gives {:?}, expected {:?}", what, skip, got, want));
+		}
+		let got = Iterator::min(adv(skip)).map(f);
+		let want = Iterator::min(by_next().into_iter().skip(skip)).map(f);
+		if got != want {
+			return Err(format!("{}: min() after {} next() gives {:?}, expected {:?}", what, skip, got, want));
+		}
+		let got = adv(skip).max_by(|a, b| a.cmp(b)).map(f);
+		let want = by_next().into_iter().skip(skip).max_by(|a, b| a.cmp(b)).map(f);
+		if got != want {
+			return Err(format!("{}: max_by(cmp) after {} next() gives {:?}, expected {:?}", what, skip, got, want));
+		}
+		let got = adv(skip).min_by(|a, b| a.cmp(b)).map(f);
+		let want = by_next().into_iter().skip(skip).min_by(|a, b| a.cmp(b)).map(f);
+		if got != want {
+			return Err(format!("{}: min_by(cmp) after {} next() gives {:?}, expected {:?}", what, skip, got, want));
+		}
+		if adv(skip).is_sorted() != by_next().into_iter().skip(skip).is_sorted() {
+			return Err(format!("{}: is_sorted() after {} next() differs from that of the collected items", what, skip));
+		}
+		n += 5;
+	}
+	Ok(n)
 }
 
 /// Double-ended part of the protocol: rev, nth_back, next_back after nth.
